@@ -177,6 +177,9 @@ def run(tier="quick", seed=0, replay=None):
         print(open(replay).read())
         return 1
     core.lean_stage(chk, "C05")
+    from harness import cover
+    _cv = cover.Cover(['ixai/explainer/sage/batch.py', 'ixai/explainer/sage/interval.py', 'ixai/explainer/base.py'])
+    _cv.__enter__()
     quick = tier == "quick"
     reqs, impls = [], []
     for i in range(45 if quick else 500):
@@ -229,6 +232,8 @@ def run(tier="quick", seed=0, replay=None):
                               f"of each feature's chain contribution / schedule) are {str(m)[:300]}", dict(desc, expected=m, observed=i))
     else:
         chk.tie_failure("driver", "model driver not built")
+    _cv.__exit__(None, None, None)
+    cover.gate(chk, _cv, only_functions=['BatchSage', 'IntervalSage', '_get_mean_model_output'])
     chk.exhaustive = False
     chk.extra["explanation"] = ("Theorems about batchSage/intervalStep for every data set, callbacks, orders, rows and schedules; tied to "
                                 "batch.py/interval.py by exact-arithmetic correspondence; sum identity and schedule evaluated on the real objects.")
